@@ -7,6 +7,11 @@ use serde_json::Value;
 
 pub fn check(name: &str, case: &Value, v: &Violation) -> bool {
     match name {
+        "inline_type_under_name_without_alphanumerics" => {
+            case.get("use").and_then(|u| u.as_str()) == Some("prop")
+                && case.get("ptype").and_then(|t| t.as_u64()) == Some(7)
+                && case.get("names").and_then(|n| n.as_array()).and_then(|a| a.first()).and_then(|x| x.as_str()).map(|n| crate::gen::names::heck_pascal(&n.replace('\'', "").replace(|c: char| !unicode_ident::is_xid_continue(c), "-")).is_empty()).unwrap_or(false)
+        }
         "root_title_is_also_a_definition" => case.get("history").and_then(|h| h.as_array()).map(|steps| steps.iter().any(|st| {
             let Some(doc) = st.get("doc") else { return false };
             match (doc.get("title").and_then(|t| t.as_str()), doc.get("definitions").and_then(|d| d.as_object())) {
